@@ -37,6 +37,11 @@ CHECKS = {
             "Close: live table = own rescan = snapshot; bucket -> complete, non-deleted, correctly tagged record; entries sorted, prefix-free, distinct locations; entry -> complete, non-deleted primary record "
             "with matching size, bucket bits and stored prefix; no live location on the freelist files; first-file numbers not beyond referenced files.",
             BASE + " The fsck reader is written from the format description and shares no code with the repository; it is itself trusted.", "4 C07"),
+    "C10": (True, "exploration", "property testing over generated legacy stores (own encoder of the legacy formats) + crash-point enumeration inside the conversion",
+            "The harness writes version-2 single-file indexes, unversioned single-file primaries and freelists with its own encoder from generated map histories (superseded lists, pending/applied/lost freelist entries, optionally a cut primary so that "
+            "entries lose their data), converts them through OpenStore under target file sizes from 1 byte to larger than the files, and compares the result with the reference map, with an independent fsck and with a generated suffix. "
+            "The conversion runs under the crash recorder; every captured or torn image must open again and show the same contents.",
+            BASE + " The legacy formats are re-implemented from the upgrade code's reader side and the checked-in fixtures; crash enumeration is per generated store.", "4 C10"),
     "C11": (True, "exploration", "property testing with validity predicates over generated histories (kill phase + GC cycles to a fixed point)",
             "Random histories followed by a generated kill phase (remove/overwrite every key in non-current primary files, rewrite every bucket referring into non-current index files, flush) and rounds of "
             "[primary GC, index GC, flush]; checked: a byte-identical fixed point is reached within a generous bound derived from the cycle structure, every fully dead primary file and every unreferenced index file "
